@@ -109,7 +109,19 @@ pub fn shader_for(ch: &mut Ch, large: bool) -> String {
         p.stmts = (0, 2);
         p.ty.atomic = false;
     }
-    render(&gen_shader(ch, &p))
+    let mut sh = gen_shader(ch, &p);
+    // text that looks like the separators of a stringified token stream ends up inside the SOURCE
+    // literal: whatever is done to the formatter's output must not reach into string literals
+    if ch.chance(5, 8) {
+        let pays = crate::props::c16::TOKEN_BOUNDARY_PAYLOADS;
+        let n = ch.usize_range(1, 4);
+        for _ in 0..n {
+            let a = *ch.pick(&pays[..]);
+            let b = *ch.pick(&["pub const SOURCE : & str =", "return color ;", "vec4 < f32 > ( 1.0 , 2.0 ) ;", "# [ repr ( C ) ]", "} ;"]);
+            sh.prologue.push_str(&format!("// {a}{b}{a}\n"));
+        }
+    }
+    render(&sh)
 }
 
 /// Ok(class info) / Err(violation). `reference` is the rustfmt:false output computed in-process.
